@@ -11,6 +11,7 @@ import (
 	"sort"
 	"strings"
 	"testing"
+	"time"
 
 	"github.com/regclient/regclient"
 	"github.com/regclient/regclient/internal/verif/core"
@@ -29,7 +30,10 @@ import (
 func TestVerif(t *testing.T) { core.Main(t) }
 
 func init() {
-	core.Register(&core.Prop{ID: "C18", Run: runC18, MaxSteps: 600000})
+	// Liveness: the workload is fault-free; a sync run that never returns has mirrored nothing, and the steps of a
+	// run share a throttle (C17's subject as regsync uses it: parallel limit, released and re-acquired around the
+	// rate-limit delay), so a run that hangs is a violation here
+	core.Register(&core.Prop{ID: "C18", Run: runC18, MaxSteps: 600000, Liveness: true, MaxIdle: 100 * time.Hour})
 }
 
 type c18Entry struct {
@@ -230,6 +234,17 @@ func runC18(e *core.Env) {
 	parallel := e.Choose("gen", 5, "parallel")
 	var cfg strings.Builder
 	cfg.WriteString("version: 1\ndefaults:\n  skipDockerConfig: true\n")
+	// the source may announce a pull rate limit (as Docker Hub does) that is below the configured minimum at first
+	// and recovers with time: regsync then delays the step, giving up its throttle slot meanwhile
+	rateMin := 0
+	if e.Choose("gen", 3, "ratelimit") == 2 {
+		rateMin = 2 + e.Choose("gen", 4, "ratemin")
+		src.K.RateLimit, src.K.RateRemain0, src.K.RateRecover = 100, e.Choose("gen", rateMin+2, "rate0"), time.Duration(1+e.Choose("gen", 10, "raterec"))*time.Minute
+		fmt.Fprintf(&cfg, "  ratelimit:\n    min: %d\n    retry: %dm\n", rateMin, 5+e.Choose("gen", 10, "rateretry"))
+		if src.K.RateRemain0 < rateMin {
+			e.Probe("source-rate-limit-below-minimum-at-start")
+		}
+	}
 	fmt.Fprintf(&cfg, "  parallel: %d\nsync:\n", parallel)
 	for _, en := range entries {
 		cfg.WriteString(en.yaml())
@@ -241,7 +256,7 @@ func runC18(e *core.Env) {
 	}
 	rounds := 1 + e.Choose("gen", 2, "rounds")
 	checkFirst := e.Choose("gen", 3, "check") == 2
-	sample := map[string]any{"entries": entries, "parallel": parallel, "rounds": rounds, "check_run_first": checkFirst,
+	sample := map[string]any{"ratelimit_min": rateMin, "entries": entries, "parallel": parallel, "rounds": rounds, "check_run_first": checkFirst,
 		"source_tags": snapTags(src), "target_tags_before": snapTags(tgt)}
 	e.SetCase(fmt.Sprintf("%v|%d|%d|%v|%v", entries, parallel, rounds, snapTags(src), snapTags(tgt)), true, sample)
 
